@@ -457,21 +457,45 @@ func gen(r *hx.Rand, n int, tier string, emit func(string), st *hx.Stats) {
 			continue
 		}
 		hx.Shuffle(c, qs)
-		// prefer queries that have possible edges (the others are answered by the pruning test)
-		sort.SliceStable(qs, func(a, b int) bool {
-			fa, ra := splitFilter(qs[a].filter)
-			fb, rb := splitFilter(qs[b].filter)
-			ea := hasEdges(ts, fga.TypeOf(qs[a].obj), qs[a].rel, fa, ra)
-			eb := hasEdges(ts, fga.TypeOf(qs[b].obj), qs[b].rel, fb, rb)
-			return ea && !eb
-		})
-		// keep one pruned query in the sample
-		if len(qs) > perWorld {
-			last := qs[len(qs)-1]
-			qs = append(qs[:perWorld-1:perWorld-1], last)
+		// prefer queries with a non-empty real answer (probed once, only to bias the sample), then queries
+		// that have possible edges; keep a few empty ones and one that the pruning test answers
+		ctx := fga.GenReqCtx(c, m)
+		var withEdges, pruned []query
+		for _, q := range qs {
+			fa, ra := splitFilter(q.filter)
+			if hasEdges(ts, fga.TypeOf(q.obj), q.rel, fa, ra) {
+				withEdges = append(withEdges, q)
+			} else {
+				pruned = append(pruned, q)
+			}
+		}
+		var nonEmpty, empty []query
+		for k, q := range withEdges {
+			if k >= 40 {
+				empty = append(empty, q)
+				continue
+			}
+			o := listUsersOnce(ts, tuples, ctxT, fga.Req{Obj: q.obj, Rel: q.rel, User: q.filter, Ctx: ctx}, 25, 10, deadline, false)
+			if o == "R -" {
+				empty = append(empty, q)
+			} else {
+				nonEmpty = append(nonEmpty, q)
+			}
+		}
+		if len(nonEmpty) > perWorld-3 {
+			nonEmpty = nonEmpty[:perWorld-3]
+		}
+		qs = append([]query{}, nonEmpty...)
+		for _, q := range empty {
+			if len(qs) >= perWorld-1 {
+				break
+			}
+			qs = append(qs, q)
+		}
+		if len(pruned) > 0 {
+			qs = append(qs, pruned[0])
 		}
 		st.Inc("worlds")
-		ctx := fga.GenReqCtx(c, m)
 		for _, q := range qs {
 			if i >= n {
 				break
